@@ -190,6 +190,28 @@ def build_scenarios(T, base, tier, serial_T=None):
     S.append(Scn("tar2sqfs-big-xattr", "tar2sqfs", T, os.path.join(base, "s12d"), prep_bigxattr,
                  lambda b, out: [T["tar2sqfs"], "-q", "-b", "4096", "-j", "1", "-c", "lz4", out], "image", packer=True, stdin_file=lambda b: os.path.join(b, "in.tar")))
 
+    # S12e/f: inputs and outputs larger than the 128 KiB stream buffers: the refill / flush paths run in the middle of a file
+    bigspec = [E(b"big.bin", "file", content=content_pattern("bb", 2 * 131072 + 100)), E(b"small", "file", content=b"small\n"),
+               E(b"exact.bin", "file", content=content_pattern("ex", 131072))]
+
+    def prep_bigdir(b):
+        treegen.render_dir(bigspec, os.path.join(b, "root"))
+    S.append(Scn("gensquashfs-big-file", "gensquashfs", T, os.path.join(base, "s12e"), prep_bigdir,
+                 lambda b, out: [T["gensquashfs"], "-q", "-b", "32768", "-j", "1", "-c", "lz4", "-D", os.path.join(b, "root"), out], "image", packer=True))
+
+    def prep_bigimg(b):
+        wd = os.path.join(b, "mk")
+        os.makedirs(wd)
+        pf = treegen.render_packfile(bigspec, wd)
+        open(os.path.join(wd, "pack.txt"), "wb").write(pf)
+        r = run_tool([T["gensquashfs"], "-q", "-b", "32768", "-c", "lz4", "-F", os.path.join(wd, "pack.txt"), "-D", os.path.join(wd, "in"), os.path.join(b, "img.sqfs")], timeout=60)
+        if r.rc != 0:
+            raise RuntimeError("cannot build reader image: %s" % r.err[-300:])
+    S.append(Scn("sqfs2tar-big-file", "sqfs2tar", T, os.path.join(base, "s12f"), prep_bigimg,
+                 lambda b, out: [T["sqfs2tar"], os.path.join(b, "img.sqfs")], "stdout"))
+    S.append(Scn("rdsquashfs-cat-big-file", "rdsquashfs", T, os.path.join(base, "s12g"), prep_bigimg,
+                 lambda b, out: [T["rdsquashfs"], "-c", "big.bin", os.path.join(b, "img.sqfs")], "stdout"))
+
     # S13: rdsquashfs xattr dump and stat (xattr reader, id table)
     S.append(Scn("rdsquashfs-xattr", "rdsquashfs", T, os.path.join(base, "s13"), prep_img,
                  lambda b, out: [T["rdsquashfs"], "-x", "x", os.path.join(b, "img.sqfs")], "stdout"))
